@@ -183,6 +183,7 @@ fn extracted_fun_src(
 ) -> String {
     let return_signature = match return_ty {
         Some(Type::Any) | None => "".to_owned(),
+        Some(ty) if mentions_generic_fun(ty) => "".to_owned(),
         Some(Type::Error { inferred_type, .. }) => match inferred_type {
             Some(ty) => format!(": {ty}"),
             None => "".to_owned(),
@@ -193,19 +194,107 @@ fn extracted_fun_src(
     let params_signature = params
         .iter()
         .map(|(param, ty)| match ty {
-            Some(ty) => format!("{}: {}", param.text, ty),
-            None => param.text.to_owned(),
+            Some(ty) if !mentions_generic_fun(ty) => format!("{}: {}", param.text, ty),
+            _ => param.text.to_owned(),
         })
         .collect::<Vec<_>>()
         .join(", ");
 
+    // The type parameters of the enclosing function that the
+    // signature mentions must be declared on the new function too.
+    let mut type_param_names: Vec<String> = vec![];
+    for (_, ty) in params {
+        if let Some(ty) = ty {
+            if !mentions_generic_fun(ty) {
+                collect_type_params(ty, &mut type_param_names);
+            }
+        }
+    }
+    match return_ty {
+        Some(ty) if mentions_generic_fun(ty) => {}
+        Some(Type::Error { inferred_type, .. }) => {
+            if let Some(ty) = inferred_type {
+                collect_type_params(ty, &mut type_param_names);
+            }
+        }
+        Some(ty) => collect_type_params(ty, &mut type_param_names),
+        None => {}
+    }
+    let type_params_signature = if type_param_names.is_empty() {
+        "".to_owned()
+    } else {
+        format!("<{}>", type_param_names.join(", "))
+    };
+
     format!(
-        "fun {}({}){} {{\n  {}\n}}\n",
+        "fun {}{}({}){} {{\n  {}\n}}\n",
         name,
+        type_params_signature,
         params_signature,
         return_signature,
         &src[body_start..body_end]
     )
+}
+
+/// Does `ty` contain the type of a generic function, e.g.
+/// `Fun<(T), String>` for `string_repr`? Its own type parameters
+/// can't be written in a type hint.
+fn mentions_generic_fun(ty: &Type) -> bool {
+    match ty {
+        Type::Fun {
+            type_params,
+            params,
+            return_,
+            ..
+        } => {
+            !type_params.is_empty()
+                || params.iter().any(mentions_generic_fun)
+                || mentions_generic_fun(return_)
+        }
+        Type::Tuple(items) => items.iter().any(mentions_generic_fun),
+        Type::UserDefined { args, .. } => args.iter().any(mentions_generic_fun),
+        Type::Error { inferred_type, .. } => match inferred_type {
+            Some(inferred_type) => mentions_generic_fun(inferred_type),
+            None => false,
+        },
+        Type::Any | Type::TypeParameter(_) => false,
+    }
+}
+
+/// Add the names of the type parameters that occur in `ty` to
+/// `names`, in order of first occurrence.
+fn collect_type_params(ty: &Type, names: &mut Vec<String>) {
+    match ty {
+        Type::TypeParameter(name) => {
+            if !names.contains(&name.text) {
+                names.push(name.text.clone());
+            }
+        }
+        Type::Tuple(items) => {
+            for item in items {
+                collect_type_params(item, names);
+            }
+        }
+        Type::Fun {
+            params, return_, ..
+        } => {
+            for param in params {
+                collect_type_params(param, names);
+            }
+            collect_type_params(return_, names);
+        }
+        Type::UserDefined { args, .. } => {
+            for arg in args {
+                collect_type_params(arg, names);
+            }
+        }
+        Type::Error { inferred_type, .. } => {
+            if let Some(inferred_type) = inferred_type {
+                collect_type_params(inferred_type, names);
+            }
+        }
+        Type::Any => {}
+    }
 }
 
 fn locals_outside_exprs(
